@@ -668,11 +668,20 @@ func (st *Runtime) executeList(list *ListNode) (returnValue reflect.Value) {
 		case NodeReturn:
 			node := node.(*ReturnNode)
 			returnValue = st.evalPrimaryExpressionGroup(node.Value)
+			if !returnValue.IsValid() {
+				// returning nil is returning, too: it must replace what an earlier return left,
+				// also from inside a nested list (where "no value" means "no return executed")
+				returnValue = returnedNil
+			}
 		}
 	}
 
 	return returnValue
 }
+
+// returnedNil stands for the value of a return statement that was given nil, on its way out
+// through the lists around it; exec() hands it out as nil.
+var returnedNil = reflect.ValueOf(struct{ returnedNil bool }{true})
 
 // keepReturnValue records the value a nested list returned, if it returned one: statements
 // that return nothing must not discard a value returned by an earlier {{return}}.
